@@ -297,6 +297,13 @@ class LocalFileStore(Store):
                     raise DDSException(
                         f"Requested to load path {path} but path {loc} does not exist"
                     )
+                if not os.path.islink(loc):
+                    # A committed path is a link to its blob. A directory here only means that longer paths
+                    # have been committed: its name is not a key.
+                    raise DDSException(
+                        f"Requested to load path {path} but {loc} is not a committed path "
+                        f"(it is a directory that holds other paths)"
+                    )
                 rp = os.path.realpath(loc)
                 # The key is the last element of the path
                 key = PyHash(os.path.split(rp)[-1])
